@@ -79,14 +79,19 @@ func genProto(r *gen.R) protoCase {
 				pc.mutation = "raw short by one element"
 			}
 		case 1:
-			if raw && len(tp.RawData) >= 1 && sz > 1 {
-				tp.RawData = tp.RawData[:len(tp.RawData)-1]
-				pc.mutation = "raw short by one byte"
+			if raw && len(tp.RawData) >= sz && sz > 1 {
+				cut := r.Range(1, sz-1)
+				tp.RawData = tp.RawData[:len(tp.RawData)-cut]
+				pc.mutation = fmt.Sprintf("raw short by %d byte(s) of a %d-byte element", cut, sz)
 			}
 		case 2:
 			if raw && sz > 1 {
-				tp.RawData = append(tp.RawData, 1)
-				pc.mutation = "raw long by one byte"
+				// every surplus that is not a whole element: 1 .. sz-1 bytes (e.g. 4 extra bytes on a DOUBLE payload)
+				extra := r.Range(1, sz-1)
+				for i := 0; i < extra; i++ {
+					tp.RawData = append(tp.RawData, byte(i+1))
+				}
+				pc.mutation = fmt.Sprintf("raw long by %d byte(s) of a %d-byte element", extra, sz)
 			}
 		case 3:
 			if raw {
